@@ -323,6 +323,10 @@ pub struct HealthRef {
     /// rounding allowance in dollars for |assets - liabs|
     pub allow: Q,
     pub isolated_violation: bool,
+    /// unweighted dollar value (low-biased price) of the deposits held in isolated-tier banks; the program's risk
+    /// engine counts them as zero for every requirement type, so they are *not* part of `assets`. The statement of
+    /// C07 speaks of "unweighted assets": that check adds this to the equity assets.
+    pub isolated_unweighted: Q,
 }
 
 impl HealthRef {
@@ -347,7 +351,7 @@ fn bank_weight(bank: &Bank, req: Req, liability: bool) -> Q {
 
 /// reference health of a marginfi account, from raw store bytes
 pub fn health_of(s: &Store, acct: &MarginfiAccount, req: Req) -> HealthRef {
-    let mut out = HealthRef { assets: rf::qzero(), liabs: rf::qzero(), engine_err: None, positions: vec![], allow: rf::qzero(), isolated_violation: false };
+    let mut out = HealthRef { assets: rf::qzero(), liabs: rf::qzero(), engine_err: None, positions: vec![], allow: rf::qzero(), isolated_violation: false, isolated_unweighted: rf::qzero() };
     let active: Vec<_> = acct.lending_account.balances.iter().filter(|b| b.active != 0).collect();
     let banks: Vec<Option<Bank>> = active.iter().map(|b| world::try_bank(s, &b.bank_pk)).collect();
     // e-mode: per collateral tag, the least favourable entry over every borrowed bank; a tag missing
@@ -406,7 +410,15 @@ pub fn health_of(s: &Store, acct: &MarginfiAccount, req: Req) -> HealthRef {
             }
         } else if a_sh >= one_share() {
             let amount = a_sh * rf::q(bank.asset_share_value);
-            if bank.config.risk_tier == RiskTier::Isolated {
+            // isolated-tier deposits back no borrowing (zero for initial and maintenance margin) but are assets
+            // in the unweighted equity valuation (as repaired in /repo: 'fix: isolated-tier deposits count in
+            // the equity valuation'); with the pre-fix behaviour C07 sees them through `isolated_unweighted`
+            if bank.config.risk_tier == RiskTier::Isolated && req != Req::Equity {
+                if let Ok(o) = &oref {
+                    if let Ok(price) = o.biased(req, false) {
+                        out.isolated_unweighted = out.isolated_unweighted.clone() + amount.clone() * price / dec.clone();
+                    }
+                }
                 out.positions.push(PositionRef { bank: bal.bank_pk, is_liability: false, amount, weight: rf::qzero(), price: rf::qzero(), value: rf::qzero(), oracle_err: None });
                 continue;
             }
